@@ -12,48 +12,27 @@ COMMON_TRUSTED = [
 ]
 
 
-def toks_after(c, n):
-    return c[n:]
 
 
-# ---------------------------------------------------------------- C06
-def c06_nontrivial(c, i):
-    # at least one In call observed
-    return len(i) > 0 and i[0].isdigit() and int(i[0]) >= 1
-
-
-def c06_classify(c, i):
-    out = []
-    mx, cut, skip, base, buf, nturns = c[1], c[2], c[3], c[4], c[5], c[6]
-    out.append("mode=" + ("unlimited" if mx == "0" else ("cut" if cut == "1" else "skip")))
-    out.append("turns=" + nturns)
-    out.append("buf=" + ("1" if buf == "1" else "2-7" if int(buf) < 8 else "8+"))
-    if skip == "1": out.append("shouldSkip")
-    if base != "0": out.append("resume-offset")
-    if i and i[0].isdigit():
-        n = int(i[0])
-        out.append("calls=" + ("0" if n == 0 else "1-3" if n < 4 else "4+"))
-    return out
-
-
+# Properties not claimed, with the reason shown in MANIFEST.not_applicable (default text otherwise).
 NOT_CLAIMED = {}
 
-PROPS = {
-    "C06": {
-        "manifest": {
-            "text": "Proof: Lean theorems (Props/C06.lean) state that the model of worker.work emits exactly specLines(content) for every content and every split into reads/turns; the model is tied to the real worker by running both on exhaustive small contents and random contents on every run.",
-            "note": "Trusted: Lean kernel + the three standard axioms; fdmodel compilation; harness; os.File.Read chunking assumption. Not modelled: lz4, metadata, truncation (processEOF).",
-            "technique": "Lean 4 proof (induction over reads, refinement to specLines) + differential correspondence on real temp files",
-        },
-        "props_modules": ["FileD.Props.C06"],
-        "nontrivial": c06_nontrivial,
-        "classify": c06_classify,
-        "rule": "exhaustive contents over {a,b,\\n} up to length 6 (quick) / 8 (thorough) x every buffer size x single append points x limit modes, then random contents (line lengths around the limits, 1-4 appends, resume offsets, buffers 1..4096); distinct = distinct case line; non-trivial = the real worker made at least one In call",
-        "corr_name": "Worker.turns = (*worker).work (In calls, curOffset, tail, shouldSkip)",
-        "trusted_base": [
-            "os.File.Read on a regular file returns the next min(len(buf), remaining) bytes and (0, EOF) at end (the case's read chunks are derived from this)",
-            "modelled, not verified: lz4 files, metadata rendering, truncation detection (processEOF)",
-        ],
-        "assumptions": ["a turn starts on a line boundary (resume offsets come from committed end-of-line offsets)"],
-    },
-}
+# Every checks/p_<ID>.py defines CFG, the configuration of property <ID>. Keys:
+#   manifest      {text, note, technique}: present iff the property is claimed in MANIFEST.json
+#   props_modules Lean modules holding the property theorems (default FileD.Props.<ID>)
+#   regen         list of callables(root) -> (rc, out, err) regenerating Gen/*.lean from /repo
+#   facts         list of (name, callable(repo) -> (ok, detail)) source facts backing the model
+#   nontrivial    (case_tokens, impl_tokens) -> bool
+#   classify      (case_tokens, impl_tokens) -> [labels] for the input-distribution histogram
+#   signatures    {name: (case_toks, impl_toks, model_toks, finding_record) -> bool} for known_findings.jsonl
+#   rule, corr_name, trusted_base, assumptions: text for the evidence file
+#   trace         True when each case is a trace replayed through the model's step relation
+#   chunk, timeout, widen_seeds, widen_cases: volume controls
+import glob as _glob, importlib.util as _ilu, os as _os
+PROPS = {}
+for _p in sorted(_glob.glob(_os.path.join(_os.path.dirname(_os.path.abspath(__file__)), "p_C*.py"))):
+    _id = _os.path.basename(_p)[2:-3]
+    _spec = _ilu.spec_from_file_location("p_" + _id, _p)
+    _m = _ilu.module_from_spec(_spec)
+    _spec.loader.exec_module(_m)
+    PROPS[_id] = _m.CFG
